@@ -116,10 +116,15 @@ class PositionSend(Unit):
                               % ((x, y, z), i, s.data, m.value(rec['outcome'][1])))
 
     def replay(self, model, label):
-        return replay_position(int(model.get('i', 0)), *_conc_pos(model))
+        rp = replay_position(int(model.get('i', 0)), *_conc_pos(model))
+        return rp if rp['confirmed'] or not label.startswith('frame.') else replay_position_history()
 
     def bounded(self, rng, tier):
         fails, cnt = [], 0
+        rp = replay_position_history()
+        cnt += rp['n']
+        if rp['confirmed']:
+            fails.append(dict(call=rp['call'], observed=rp['observed'], witness='position-history'))
         bx = [-(1 << 25), -(1 << 25) + 1, -1, 0, 1, (1 << 25) - 1]
         by = [-(1 << 11), -1, 0, 1, (1 << 11) - 1]
         idxs = range(known_count()) if tier == 'thorough' else \
@@ -133,7 +138,7 @@ class PositionSend(Unit):
                     fails.append(dict(call=rp['call'], observed=rp['observed'], witness='position@%d' % i))
                     break
         return dict(name='C04.position.boundary-product', evaluations=cnt, failures=fails,
-                    bound='%d version indices x 6x5x6 boundary triples' % len(list(idxs)))
+                    bound='%d version indices x 6x5x6 boundary triples; one context taken through 6 x 6 version histories' % len(list(idxs)))
 
 
 def replay_position(i, x, y, z):
@@ -151,6 +156,41 @@ def replay_position(i, x, y, z):
         if k2 != 'ok' or tuple(p) != (x, y, z):
             bad = 'decoded back as %s %r' % (k2, p)
     return dict(confirmed=bad is not None, call=call, observed=bad or 'conforms')
+
+
+def replay_position_history():
+    """ONE ConnectionContext whose protocol_version is rewritten between calls, as Connection.connect() does on every
+    (re)connect: each call must follow the version the context has AT THAT MOMENT (seeded change C04-r9: layout decision
+    memoised on the context).  Position, and the block record / section position that also take the context."""
+    idxs = sorted({0, I404, I477, known_count() - 1, minecraft.PROTOCOL_VERSION_INDICES[443] - 1,
+                   minecraft.PROTOCOL_VERSION_INDICES[443]})
+    x, y, z = 1200, 65, -420
+    n = 0
+    for first in idxs:
+        ctx = real_context(first)
+        hist = []
+        for i in [first] + [j for j in idxs if j != first]:
+            n += 1
+            ctx.protocol_version = protocol_of_index(i)
+            hist.append(protocol_of_index(i))
+            s = Sink()
+            kind, val = native_call(Position.send_with_context, (x, y, z), s, ctx)
+            bad = None
+            if kind != 'ok':
+                bad = '%s %r' % (kind, val)
+            elif s.data not in spec_position_bytes(i, x, y, z):
+                bad = 'sent %s, protocol %d prescribes %s' % (s.data.hex(), protocol_of_index(i),
+                                                               ' or '.join(b.hex() for b in spec_position_bytes(i, x, y, z)))
+            else:
+                sp = spec_position_bytes(i, x, y, z)
+                want = sp[0] if len(sp) == 1 else s.data      # in the snapshot gap either layout is admissible: the encoder's choice
+                k2, p = native_call(Position.read_with_context, io.BytesIO(want), ctx)
+                if k2 != 'ok' or tuple(p) != (x, y, z):
+                    bad = 'bytes %s decoded as %s %r under protocol %d' % (want.hex(), k2, p, protocol_of_index(i))
+            if bad:
+                return dict(confirmed=True, n=n, call='one ConnectionContext taken through protocols %r, Position %r written / read at '
+                            'each step' % (hist, (x, y, z)), observed=bad)
+    return dict(confirmed=False, n=n, call='context histories over %d version indices' % len(idxs), observed='conform')
 
 
 class PositionMonotone(Unit):
